@@ -450,6 +450,10 @@ func (so *Sorts) sortedComps() []string {
 const basePrelude = `; ---- govc base prelude ----
 (declare-datatypes ((Slice 0)) (((mkS (s_base Int) (s_off Int) (s_len Int) (s_cap Int)))))
 (define-fun nilS () Slice (mkS 0 0 0 0))
+; element index of a slice: offset + i, kept under a function symbol so that
+; quantified facts about elements have arithmetic-free triggers
+(declare-fun idx (Int Int) Int)
+(assert (forall ((o Int) (i Int)) (! (= (idx o i) (+ o i)) :pattern ((idx o i)))))
 (declare-const emptyStrBase Int)
 (define-fun emptyStr () Slice (mkS 0 0 0 0))
 (define-fun wfSlice ((s Slice)) Bool (and (<= 0 (s_base s)) (<= 0 (s_off s)) (<= 0 (s_len s)) (<= (s_len s) (s_cap s)) (<= (s_cap s) 140737488355328) (<= (s_off s) 140737488355328) (=> (= (s_base s) 0) (and (= (s_len s) 0) (= (s_cap s) 0) (= (s_off s) 0)))))
